@@ -214,6 +214,9 @@ def checkSolve (p : List Rat) (y : Rat) (ans : String) : Except String (List Str
     | _, _ => .error "solve: unparsable"
   | _ => .error "solve: unparsable"
 
+/-- every number is a multiple of 1/16 of magnitude at most 2^16: sums of up to four of them are exact in binary32 -/
+def dyadicSafe (xs : List Rat) : Bool := xs.all (fun x => (x * 16).den = 1 ∧ absR x ≤ 65536)
+
 def checkTouches (p : List Rat) (v : Rat) (ans : String) : Except String (List String) :=
   match splitCommas ans with
   | [bS, rS, flag] =>
@@ -247,6 +250,11 @@ def checkTouches (p : List Rat) (v : Rat) (ans : String) : Except String (List S
           else if c.sound r then .ok [s!"touches:deg{sig - 1}:true"]
           else .error s!"touches: reported point {ratToString r} is not a solution (real roots {c.roots.map ratToString})"
         else
+          -- an end point that solves the equation exactly, with nothing rounded on the way (coefficients and value are multiples
+          -- of 1/16 up to 2^16: p(0) and p(1) are exact in binary32 in every summation order): a solution lies in [0,1]
+          if dyadicSafe (v :: p.take sig) ∧ (Sturm.eval c.q 0 = 0 ∨ Sturm.eval c.q 1 = 0) then
+            .error s!"touches: reported no solution in [0,1] but an end point solves the equation exactly (p(0) = {ratToString (Sturm.eval p 0)}, p(1) = {ratToString (Sturm.eval p 1)}, value {ratToString v}; no rounding involved)"
+          else
           match c.roots.find? (fun ρ => rootTol ≤ ρ ∧ ρ ≤ 1 - rootTol ∧ !c.removable ρ) with
           | some ρ => .error s!"touches: reported no solution in [0,1] but {ratToString ρ} is one"
           | none => .ok [s!"touches:deg{sig - 1}:false"]
